@@ -31,6 +31,7 @@ type LbOp struct {
 	W      int    `json:"w,omitempty"`
 	Addr   string `json:"addr,omitempty"`
 	S      string `json:"s,omitempty"`    // strategy name
+	Upg    bool   `json:"upg,omitempty"`  // begin: the request asks for a protocol upgrade (Connection: Upgrade, Upgrade: websocket); the gates and the accounting must not depend on it
 	Meth   string `json:"meth,omitempty"` // begin: request method (GET when empty); the accounting must not depend on it
 	Pre    bool   `json:"pre,omitempty"`  // begin: the client is already gone when the request reaches the balancer (context cancelled)
 }
@@ -90,7 +91,17 @@ func (r *lbRunner) registerBackends() {
 func nameID(name string) int {
 	var n int
 	fmt.Sscanf(name, "n%d", &n)
+	if strings.HasSuffix(name, " ") { // a name that differs from n<k> by a trailing blank is another name: 5000 + k
+		n += 5000
+	}
 	return n
+}
+
+func lbName(id int) string {
+	if id >= 5000 {
+		return fmt.Sprintf("n%d ", id-5000)
+	}
+	return fmt.Sprintf("n%d", id)
 }
 
 func (r *lbRunner) emit(op string, ob string) {
@@ -109,6 +120,10 @@ func (r *lbRunner) begin(op LbOp) {
 	}
 	if op.XRI != "" {
 		req.Header.Set("X-Real-IP", op.XRI)
+	}
+	if op.Upg {
+		req.Header.Set("Connection", "Upgrade")
+		req.Header.Set("Upgrade", "websocket")
 	}
 	req.RemoteAddr = op.Remote
 	ctx, cancel := context.WithCancel(context.Background())
@@ -239,7 +254,7 @@ func (r *lbRunner) metrics() {
 	sort.Ints(names)
 	items := []string{fmt.Sprint(m.TotalRequests), fmt.Sprint(m.SuccessfulRequests), fmt.Sprint(m.FailedRequests), fmt.Sprint(m.RateLimitedRequests), fmt.Sprint(len(names))}
 	for _, n := range names {
-		bm := m.BackendMetrics[fmt.Sprintf("n%d", n)]
+		bm := m.BackendMetrics[lbName(n)]
 		items = append(items, fmt.Sprint(bm.TotalRequests), fmt.Sprint(bm.SuccessfulRequests), fmt.Sprint(bm.FailedRequests), ZI(int(bm.ActiveConnections)), B01(bm.IsHealthy))
 	}
 	r.emit("CMetrics "+IList(names), List(items))
@@ -259,7 +274,7 @@ func (r *lbRunner) apply(op LbOp) {
 		r.advance(op.D)
 	case "add":
 		r.list()
-		err := r.lb.AddBackend(config.BackendConfig{Name: fmt.Sprintf("n%d", op.Name), Address: op.Addr, Weight: op.W})
+		err := r.lb.AddBackend(config.BackendConfig{Name: lbName(op.Name), Address: op.Addr, Weight: op.W})
 		_, perr := urlParseOK(op.Addr)
 		r.registerBackends()
 		r.emit(fmt.Sprintf("CAdd %d %s %s", op.Name, ZI(op.W), B(perr)), fmt.Sprintf("[%s]", B01(err != nil)))
@@ -267,7 +282,7 @@ func (r *lbRunner) apply(op LbOp) {
 		r.list()
 	case "rm":
 		r.list()
-		r.lb.RemoveBackend(fmt.Sprintf("n%d", op.Name))
+		r.lb.RemoveBackend(lbName(op.Name))
 		r.emit(fmt.Sprintf("CRemove %d", op.Name), "[0]")
 		r.stats["remove"]++
 		r.list()
@@ -331,6 +346,7 @@ func runLbCase(c *LbCase) (string, map[string]int) {
 				if g.Chance(25) {
 					op.Meth = g.PickS([]string{"POST", "PUT", "DELETE", "HEAD", "OPTIONS", "PATCH", "TRACE"})
 				}
+				op.Upg = g.Chance(12)
 				if op.Remote == "" {
 					op.Remote = fmt.Sprintf("192.0.2.%d:%d", g.Range(1, 3), g.Range(1024, 60000))
 				}
@@ -465,6 +481,37 @@ func lbCorpus() []LbCase {
 			LbOp{K: "begin", Rid: 2, Remote: "10.0.0.1:1"}, LbOp{K: "end", Rid: 2, Code: 200}, LbOp{K: "metrics"})
 		out = append(out, LbCase{Strategy: "round_robin", Backends: []int{1, 1}, Passive: true, PThr: 1, PTimeout: 30, Ops: ops})
 	}
+	// C13: a name that differs from another by a trailing blank is another backend with totals of its own
+	out = append(out, LbCase{Strategy: "round_robin", Backends: []int{1, 1}, Ops: []LbOp{
+		{K: "add", Name: 5001, W: 1, Addr: "http://b1pad.invalid:80"}, {K: "list"},
+		{K: "begin", Rid: 1, Remote: "10.0.0.1:1"}, {K: "end", Rid: 1, Code: 200}, {K: "begin", Rid: 2, Remote: "10.0.0.1:1"}, {K: "end", Rid: 2, Code: 200},
+		{K: "begin", Rid: 3, Remote: "10.0.0.1:1"}, {K: "end", Rid: 3, Code: 500}, {K: "begin", Rid: 4, Remote: "10.0.0.1:1"}, {K: "end", Rid: 4, Code: 200},
+		{K: "begin", Rid: 5, Remote: "10.0.0.1:1"}, {K: "end", Rid: 5, Code: 200}, {K: "begin", Rid: 6, Remote: "10.0.0.1:1"}, {K: "metrics"}, {K: "end", Rid: 6, Code: 200},
+		{K: "metrics"}, {K: "rm", Name: 5001}, {K: "list"}, {K: "metrics"}}})
+	// C09 / C07: a client address of blanks only has a bucket like any other; upgrade requests pass the gates like any other
+	out = append(out, LbCase{Strategy: "round_robin", Backends: []int{1}, Lim: true, LMax: 2, LRate: 3600, Ops: []LbOp{
+		{K: "begin", Rid: 1, XFF: "\u00a0, 203.0.113.9", Remote: "10.0.0.1:1"}, {K: "end", Rid: 1, Code: 200}, {K: "begin", Rid: 2, XFF: "\u00a0, 203.0.113.9", Remote: "10.0.0.1:1"}, {K: "end", Rid: 2, Code: 200},
+		{K: "begin", Rid: 3, XFF: "\u00a0, 203.0.113.9", Remote: "10.0.0.1:1"}, {K: "begin", Rid: 4, XFF: "\u00a0", Remote: "10.0.0.1:1"}, {K: "metrics"}}})
+	out = append(out, LbCase{Strategy: "round_robin", Backends: []int{1, 1}, Brk: true, BMax: 1, BInterval: 60, BTimeout: 60, BFthr: 2, BSthr: 1, Ops: []LbOp{
+		{K: "begin", Rid: 1, Remote: "10.0.0.1:1", Upg: true}, {K: "end", Rid: 1, Code: 500}, {K: "begin", Rid: 2, Remote: "10.0.0.1:1", Upg: true}, {K: "end", Rid: 2, Code: 500},
+		{K: "begin", Rid: 3, Remote: "10.0.0.1:1", Upg: true}, {K: "adv", D: 61 * sec}, {K: "begin", Rid: 4, Remote: "10.0.0.1:1"}, {K: "begin", Rid: 5, Remote: "10.0.0.1:1", Upg: true},
+		{K: "end", Rid: 4, Code: 500}, {K: "begin", Rid: 6, Remote: "10.0.0.1:1", Upg: true}, {K: "metrics"}}})
+	// C11: a strategy switch on an emptied pool takes effect for the backends added afterwards
+	out = append(out, LbCase{Strategy: "round_robin", Backends: []int{1}, Ops: []LbOp{
+		{K: "rm", Name: 1}, {K: "strat", S: "weighted_round_robin"}, {K: "add", Name: 7, W: 3, Addr: "http://b7.invalid:80"}, {K: "add", Name: 8, W: 1, Addr: "http://b8.invalid:80"},
+		{K: "begin", Rid: 1, Remote: "10.0.0.1:1"}, {K: "end", Rid: 1, Code: 200}, {K: "begin", Rid: 2, Remote: "10.0.0.1:1"}, {K: "end", Rid: 2, Code: 200},
+		{K: "begin", Rid: 3, Remote: "10.0.0.1:1"}, {K: "end", Rid: 3, Code: 200}, {K: "begin", Rid: 4, Remote: "10.0.0.1:1"}, {K: "end", Rid: 4, Code: 200},
+		{K: "begin", Rid: 5, Remote: "10.0.0.1:1"}, {K: "end", Rid: 5, Code: 200}, {K: "begin", Rid: 6, Remote: "10.0.0.1:1"}, {K: "end", Rid: 6, Code: 200},
+		{K: "begin", Rid: 7, Remote: "10.0.0.1:1"}, {K: "end", Rid: 7, Code: 200}, {K: "begin", Rid: 8, Remote: "10.0.0.1:1"}, {K: "end", Rid: 8, Code: 200}, {K: "list"}}})
+	out = append(out, LbCase{Strategy: "weighted_round_robin", Backends: []int{1}, Ops: []LbOp{
+		{K: "rm", Name: 1}, {K: "strat", S: "ip_hash"}, {K: "add", Name: 7, W: 1, Addr: "http://b7.invalid:80"}, {K: "add", Name: 8, W: 1, Addr: "http://b8.invalid:80"}, {K: "add", Name: 9, W: 1, Addr: "http://b9.invalid:80"},
+		{K: "begin", Rid: 1, XFF: "10.0.0.1", Remote: "10.0.0.9:1"}, {K: "end", Rid: 1, Code: 200}, {K: "begin", Rid: 2, XFF: "10.0.0.1", Remote: "10.0.0.9:1"}, {K: "end", Rid: 2, Code: 200},
+		{K: "begin", Rid: 3, XFF: "10.0.0.1", Remote: "10.0.0.9:1"}, {K: "end", Rid: 3, Code: 200}, {K: "begin", Rid: 4, XFF: "10.0.0.2", Remote: "10.0.0.9:1"}, {K: "end", Rid: 4, Code: 200}}})
+	// C05 / C13: least_connections after an ejection that straddles requests in flight: the gauge of the recovered backend still counts them
+	out = append(out, LbCase{Strategy: "least_connections", Backends: []int{1, 1}, Passive: true, PThr: 1, PTimeout: 5, Ops: []LbOp{
+		{K: "begin", Rid: 1, Remote: "10.0.0.1:1"}, {K: "begin", Rid: 2, Remote: "10.0.0.1:1"}, {K: "begin", Rid: 3, Remote: "10.0.0.1:1"}, {K: "begin", Rid: 4, Remote: "10.0.0.1:1"},
+		{K: "begin", Rid: 5, Remote: "10.0.0.1:1"}, {K: "end", Rid: 1, Code: 500}, {K: "list"}, {K: "adv", D: 6 * sec}, {K: "end", Rid: 2, Code: 200},
+		{K: "begin", Rid: 6, Remote: "10.0.0.1:1"}, {K: "list"}, {K: "begin", Rid: 7, Remote: "10.0.0.1:1"}, {K: "list"}, {K: "metrics"}, {K: "drain"}, {K: "list"}, {K: "metrics"}}})
 	// C07 at balancer level: threshold 2, five 500s
 	out = append(out, LbCase{Strategy: "round_robin", Backends: []int{1, 1}, Brk: true, BMax: 1, BInterval: 60, BTimeout: 60, BFthr: 2, BSthr: 1, Ops: []LbOp{
 		{K: "begin", Rid: 1, Remote: "10.0.0.1:1"}, {K: "end", Rid: 1, Code: 500}, {K: "begin", Rid: 2, Remote: "10.0.0.1:1"}, {K: "end", Rid: 2, Code: 500},
